@@ -80,7 +80,7 @@ func (g *jsgen) fn(d int, params, ret string) string {
 	return fmt.Sprintf("function(%s){ %s return %s; }", params, g.blk(d), ret)
 }
 
-const nStmtKinds = 50
+const nStmtKinds = 52
 
 func (g *jsgen) stmt(d int) string {
 	l0 := len(g.ctxStack)
@@ -424,6 +424,14 @@ func (g *jsgen) stmt2(k, d int) string {
 		}
 	case 48:
 		g.use("array-join/toString-recursion-guard")
+		switch g.t.Draw(3) {
+		case 0:
+			// the callbacks join() makes BEFORE it reaches the elements: the length getter of an array-like receiver and
+			// the conversion of the separator
+			return fmt.Sprintf("{ var al = { get length(){ %s return 2; }, 0: 'a', 1: { toString(){ r += %s; return 'b'; } } }; r += Array.prototype.join.call(al, { toString(){ %s return '-'; } }).length; r += Array.prototype.join.call(al, '+').length; }", g.blk(d), g.p(), g.blk(d))
+		case 1:
+			return fmt.Sprintf("{ var ar = [1, { toString(){ r += %s; return 'b'; } }]; r += ar.join({ toString(){ %s return '-'; } }).length; r += ar.toString().length + String(ar).length; }", g.p(), g.blk(d))
+		}
 		return fmt.Sprintf("r += [{ toString(){ %s return 'a'; } }, [1, { toString(){ r += %s; return 'b'; } }]].join().length;", g.blk(d), g.p())
 	case 49:
 		switch g.t.Draw(3) {
@@ -455,6 +463,20 @@ func (g *jsgen) stmt2(k, d int) string {
 				return fmt.Sprintf("new (class extends (function(){ %s }) { constructor(){ try { r += %s; } finally { super(); } %s } })();", g.blk(d), g.p(), g.stmt(d))
 			})
 		}
+	case 50:
+		// a native (bound function) frame whose 'name' property is an accessor: captured stack traces walk over it,
+		// also while an exception or an interrupt is being processed
+		g.use("native-frame-with-accessor-name")
+		bf := g.id("bf")
+		return fmt.Sprintf("{ var %s = (function(){ %s }).bind(null); Object.defineProperty(%s, 'name', { get(){ r += %s; return 'acc'; } }); %s(); }", bf, g.blk(d), bf, g.p(), bf)
+	case 51:
+		// an exception that leaves a for-of loop (closing its iterator on the way) in an activation without a try
+		// statement of its own; unless an enclosing generated context catches it, it ends the whole call
+		g.use("throw-out-of-for-of-without-try")
+		x := g.id("x")
+		s1 := g.ns()
+		g.ns()
+		return fmt.Sprintf("(function(){ for (var %s of mkIt(%d, 2)) { r += %s; throw new RangeError('leaves the loop'); } })();", x, s1, g.p())
 	case 45:
 		g.use("arguments/closure")
 		c := g.id("c")
